@@ -35,7 +35,8 @@ CHECKS = {
             "and the call-graph export independently on call-structure programs.",
             "bounded native check against an independent oracle"),
  "C06": (P, "Proved: _get_asserted_int_values (bag semantics, frame: the universal list is not modified), _get_asserted_groupsizes / _groupindices sound and exact in both operand orders "
-            "(finding D1 carved out), _get_asserted generic, the engine equations (see C01) incl. checks_group_size. Per-block statement over whole runs: run-time engine contracts "
+            "(finding D1 carved out), _get_asserted generic, the engine equations (see C01) incl. checks_group_size, GroupIndices._store_results (indices clamped below the largest size, contexts list "
+            "exactly the computed sets). Per-block statement over whole runs: run-time engine contracts "
             "(fixpoint) and BS-PROG (bounded).", "contract-based deductive verification (pyvc) + run-time engine contracts + BS-PROG"),
  "C07": (P, "Proved: _get_asserted_transaction_types admits every approvable pay/axfer/update/delete kind outside finding D5, precision on direct checks, the two enum maps total and exact. "
             "The engine equations are pinned in gamma (see C01); TxnType._store_results: every context's transaction_types lists exactly the computed kinds. Per-block statement over whole runs: "
